@@ -4,7 +4,7 @@ from .common import generic_run, FinalDbMonitor, launched_instances
 PID = 'C11'
 ENGINE = 'E1'
 LEVEL = 'exploration'
-RULE = ('One case = generated workflow with required/optional standard and custom outputs + an outcome plan covering output subsets (user completion expressions `succeeded and (x or y)` / `succeeded or (failed and x)` on half of the tasks whose graph optionality allows them, missing required outputs, failures with and without optional success, partial outputs of failed tries). Each removal and each retained finished task is compared with the completion rule written from the property text. Distinct = distinct (program, outcome plan digest); non-trivial = at least one finished task was retained incomplete and one removed complete.')
+RULE = ('One case = generated workflow with required/optional standard and custom outputs + an outcome plan covering output subsets (user completion expressions `succeeded and (x or y)` / `succeeded or (failed and x)` on half of the tasks whose graph optionality allows them, missing required outputs, failures with and without optional success, partial outputs of failed tries). Each removal and each retained finished task is compared with the completion rule written from the property text. A share of the cases reloads the unchanged definition once in mid-run. Distinct = distinct (program, outcome plan digest); non-trivial = at least one finished task was retained incomplete and one removed complete.')
 ASSUMPTIONS = [
     'jobs, polls, submissions, message transport and the clock are simulated',
     'reference model / invariants cover the generated workflow sub-language',
